@@ -32,19 +32,24 @@ MANIFEST = dict(
          'the named routines against NumPy on every check.',
     note='Lean kernel + propext/Classical.choice/Quot.sound; model hand-written, fidelity rests on the correspondence run; slicing by in-range '
          '(start,stop) pairs is taken as C05 proves it; float routines (mean/var/stddev/vector_norm) are compared with NumPy under a tolerance, '
-         'their plumbing is not a theorem; compile-time axis kinds are in C09.',
+         'var/stddev/trace have no Lean statement; fixed-shape and clipped container kinds are in C09.',
     technique='Lean 4 induction proofs over List Nat shapes + differential correspondence (exhaustive small scope) + NumPy oracle')
 ASSUMPTIONS = ['apply_slice with in-range pairs 0 <= start < stop <= extent has shape stop-start and reads start+d (C05 domain theorem; observed here through every element of every reduction)',
                'uint32 arithmetic of the order-revealing functor is modelled as Nat mod 2^32',
-               'compile-time-constant axis kinds are covered by the C09 kind matrix, not here']
+               'compile-time axes are exercised as meta::ct<k> and tuples of ct on dynamic arrays (rank <= 3); fixed-shape / clipped kinds are covered by the C09 kind matrix, not here']
 PARTIAL = ['var / stddev: no Lean statement (composition mean -> broadcast subtract -> fabs -> square -> sum -> divide by N-ddof needs the C06 broadcasting model); covered by correspondence with NumPy var/std (ddof 0 and 1, every axis subset, keepdims, view and eval) only',
            'trace: no Lean statement here (sum over the last axis of view::diagonal; the diagonal index map belongs to C04/C16); covered by comparison with numpy.trace for every axis pair and every offset with a non-empty diagonal',
            'mean_eq_sum_div_count / vector_norm_eq are plumbing statements over abstract element operations (which elements are folded, in which order, divided by their count); the float arithmetic itself is compared with NumPy under a tolerance']
 TRUSTED = []
 
 
+CT_PAIRS = {(0, 1), (1, 0), (0, 2), (2, 0), (1, 2), (-1, 0), (-1, -3), (1, -1), (-2, -1)}
+
+
 def harness_specs(tier):
     return [dict(name='h_c08', src='h_c08.cpp', flavour='fast'),
+            dict(name='h_c08c', src='h_c08c.cpp', flavour='fast'),
+            dict(name='h_c08_san', src='h_c08.cpp', flavour='san-dbg'),   # asserts on, ASan + UBSan: reduce_inBounds observed
             dict(name='h_c08n', src='h_c08n.cpp', flavour='fast'),
             dict(name='h_c08r', src='h_c08r.cpp', flavour='fast'),
             dict(name='h_c08f1', src='h_c08f.cpp', flavour='fast', extra=['-DC08F_PART=1']),
@@ -178,11 +183,13 @@ def gen(tier, rng):
                             kds = ['ct', 'rt'] + (['def'] if not keep else [])
                             for kd in kds:
                                 axkinds = ['vec'] + (['int'] if k == 1 else [])
+                                if kd == 'ct' and nd <= 3 and (k == 1 or tuple(axes) in CT_PAIRS):
+                                    axkinds.append('ct')        # meta::ct<k> / tuple of ct, harness h_c08c
                                 for axk in axkinds:
                                     if tier != 'quick' and nd == 4 and kd == 'def' and axk == 'vec':
                                         continue
                                     yield Case('reduce op=f31 shape=%s axis=%s keepdims=%d init=%s kd=%s ax=%s' % (
-                                        fmt(s), fmt(axes), keep, init, kd, axk), 'h_c08', oracle=ans(oshape, ores), nontrivial=nt,
+                                        fmt(s), fmt(axes), keep, init, kd, axk), 'h_c08c' if axk == 'ct' else 'h_c08', oracle=ans(oshape, ores), nontrivial=nt,
                                         tags=['reduce', srank, 'axes=' + vname, 'naxes=%d' % k, 'keepdims=%d' % keep, 'kd=' + kd,
                                               'init=' + ('absent' if init is None else 'present'), 'ax=' + axk] +
                                              (['size1-axis'] if any(s[a] == 1 for a in subset) else []) +
@@ -424,6 +431,12 @@ _gen_f31 = gen
 
 
 def gen(tier, rng):
-    yield from _gen_f31(tier, rng)
+    k = 0
+    for c in _gen_f31(tier, rng):
+        yield c
+        # every 4th request of the f31 stream again under ASan + UBSan with asserts enabled
+        k += 1
+        if c.harness == 'h_c08' and k % 4 == 0:
+            yield Case(c.req, 'h_c08_san', dom=c.dom, oracle=c.oracle, model=False, nontrivial=c.nontrivial, tags=['sanitizer'])
     yield from gen_ufuncs(tier, rng)
     yield from gen_float(tier, rng)
